@@ -288,6 +288,27 @@ Definition recv_step (rib_on : bool) (s : rib) (u : update) : rib :=
 Definition send_step (s : rib) (u : update) : rib :=
   update_send_version (update_rib_out_ipv4 s u) (u_attr u).
 
+(** ---------------------------------------------------------------------------------
+    the prefixes of a received UPDATE as they are on the wire.
+    The number of the prefix string "a.b.c.d/len" is [pfx (a.b.c.d as a 32-bit number) len]
+    (the harness renders the keys of both Adj-RIBs with the same rule).  One entry of the
+    withdrawn-routes / NLRI field is the length octet and ceil(len/8) octets; here: [(v, len)]
+    with v = those octets left-justified in 32 bits, trailing bits of the last octet AS SENT
+    (RFC 4271 4.3: their value is irrelevant).
+    Update.parse_prefix_list: `prefix_data[-1] &= 255 << (8 - remainder)` zeroes them, pads
+    with zero octets and renders "%s.%s.%s.%s/len": the key is the prefix up to padding. *)
+Definition pfx (v len : N) : prefix := v * 64 + len.
+Definition wprefix := (N * N)%type.
+Definition parse_prefix (w : wprefix) : prefix :=
+  let k := 2 ^ (32 - snd w) in pfx ((fst w / k) * k) (snd w).
+
+Record wupdate := mkWUpdate { w_attr : attrs; w_nlri : list wprefix; w_withdraw : list wprefix }.
+(** the part of Update.parse that matters here: the two prefix lists through parse_prefix_list *)
+Definition decode_update (w : wupdate) : update :=
+  mkUpdate (w_attr w) (map parse_prefix (w_nlri w)) (map parse_prefix (w_withdraw w)).
+Definition recv_wire (rib_on : bool) (s : rib) (w : wupdate) : rib :=
+  recv_step rib_on s (decode_update w).
+
 (** a new connection gets a NEW BGP object (buildProtocol -> __init__) whose connectionMade
     runs init_rib *)
 Definition new_conn : rib := init_rib rib0.
@@ -349,7 +370,8 @@ Definition sx_conn (c : conn) : sx :=
   end.
 
 Inductive event :=
-| ERecv (u : update)          (* an UPDATE from the peer, through dataReceived *)
+| ERecv (u : update)          (* an UPDATE from the peer, already decoded *)
+| ERecvW (w : wupdate)        (* an UPDATE from the peer, through dataReceived: prefixes as sent *)
 | ESend (u : update)          (* POST /v1/peer/<ip>/send/update, or the two protocol calls *)
 | EClose                      (* yabgp closes the session itself: closeConnection *)
 | ELost                       (* connectionLost (after EClose: local close; without: the peer
@@ -359,6 +381,7 @@ Inductive event :=
 Definition ev_step (rib_on : bool) (c : conn) (e : event) : conn :=
   match e with
   | ERecv u => on_rib (fun s => recv_step rib_on s u) c
+  | ERecvW w => on_rib (fun s => recv_wire rib_on s w) c
   | ESend u => on_rib (fun s => send_step s u) c
   | EClose => close_connection c
   | ELost => connection_lost c
